@@ -200,6 +200,33 @@ func runLz4c(c *lz4cCase) string {
 			}
 		}
 	}
+	if rt == "ok" && len(files) == 2 {
+		// one `uncompress` over files written with DIFFERENT block sizes (the command reuses one
+		// Reader for all its arguments): b.bin is compressed again with another -size
+		other := "64K"
+		for i, a := range args {
+			if a == "-size" && i+1 < len(args) && args[i+1] == "64K" {
+				other = "1M"
+			}
+		}
+		os.Remove(filepath.Join(dir, "b.bin.lz4"))
+		_, c3, e3 := runCmd(dir, nil, "compress", "-size", other, "b.bin")
+		if e3 != nil || c3 != 0 {
+			rt = fmt.Sprintf("fail:second-compress-exit-code-%d", c3)
+		} else {
+			for _, order := range [][]string{{"a.bin.lz4", "b.bin.lz4"}, {"b.bin.lz4", "a.bin.lz4"}} {
+				os.Remove(filepath.Join(dir, "a.bin"))
+				os.Remove(filepath.Join(dir, "b.bin"))
+				runCmd(dir, nil, append([]string{"uncompress"}, order...)...)
+				for _, f := range files {
+					back, rerr := os.ReadFile(filepath.Join(dir, f.name))
+					if rerr != nil || !bytes.Equal(back, f.data) {
+						rt = fmt.Sprintf("fail:%s-not-restored-by-one-uncompress-over-files-of-different-block-sizes(%s)(got%d-want%d)", f.name, strings.Join(order, "+"), len(back), len(f.data))
+					}
+				}
+			}
+		}
+	}
 	fv := "ok"
 	if z, rerr := os.ReadFile(filepath.Join(dir, "a.bin.lz4")); rerr == nil {
 		fv = flagsVerdict(c.flags, d1, z)
